@@ -21,7 +21,8 @@ def write_evidence(prop: str, ev: dict) -> str:
     sch = _schema()
     if sch is not None:
         jsonschema.validate(ev, sch)
-    d = os.path.join(HERE, "evidence")
+    # VERIF_EVIDENCE_DIR exists only so that self-tests against mutated scratch copies do not overwrite real evidence
+    d = os.environ.get("VERIF_EVIDENCE_DIR") or os.path.join(HERE, "evidence")
     os.makedirs(d, exist_ok=True)
     path = os.path.join(d, f"{prop}.json")
     tmp = path + ".tmp"
